@@ -12,11 +12,13 @@ def mk0 (fresh : Nat) (nm : String) (seq : List String) (sst : List Char) (mc : 
   { id := fresh, name := nm, seq := seq, sst := sst, memorycheck := mc }
 
 /-- the instance after `canonical_form` has run: turned once around (back in its representation), canonical form and
-    `_rotations` set, `_strand_lengths` filled, the other caches empty -/
+    `_rotations` set; `_strand_lengths` and `_lol_sequence` filled (emptied by every `rotate_once` of the loop since the
+    repair c1d6792, filled again by the `self.size` that computes `_rotations`), the other caches empty -/
 def registered (fresh : Nat) (nm : String) (seq : List String) (sst : List Char) (mc : Bool) (c : CKey) (rot : Nat) :
     LObj :=
   { id := fresh, name := nm, seq := seq, sst := sst, canon := some c, rotations := some rot,
-    strandLengths := some ((makeStrandTableList "+" seq).map List.length), memorycheck := mc }
+    strandLengths := some ((makeStrandTableList "+" seq).map List.length),
+    lolSequence := some (makeStrandTableList "+" seq), memorycheck := mc }
 
 /-- the fresh instance after the first evaluation of `self.size` -/
 def mk1 (fresh : Nat) (nm : String) (seq : List String) (sst : List Char) (mc : Bool) : LObj :=
@@ -65,6 +67,14 @@ theorem size_mk0 (fresh : Nat) (nm : String) (seq : List String) (sst : List Cha
   unfold LObj.size LObj.fillStrandLengths mk1 mk0 nStr
   simp [truthy]
 
+/-- `self.size` at the end of `canonical_form`: the instance has been turned once around, `_strand_lengths` and
+    `_lol_sequence` are empty and are filled again - with what they held before the loop -/
+theorem size_turned (fresh : Nat) (nm : String) (seq : List String) (sst : List Char) (mc : Bool) (c : CKey) :
+    (withCanon (rotated (mk1 fresh nm seq sst mc) (seq, sst)) c).size =
+      (withCanon (mk1 fresh nm seq sst mc) c, nStr seq) := by
+  unfold LObj.size LObj.fillStrandLengths withCanon rotated mk1 mk0 nStr
+  simp [truthy]
+
 /-- **`canonical_form` of a fresh instance** of a well-formed description: if no rotation is a key of MEMORY (or the
     check is off) it is the canonical form and `_rotations` of the abstract legacy model (`legacyCanon`), and the
     instance ends in its original representation; otherwise the first rotation that is a key of MEMORY raises. -/
@@ -79,7 +89,8 @@ theorem canonicalForm_fresh (R : LReg) (fresh : Nat) (nm : String) (seq : List S
         ∃ o', (mk0 fresh nm seq sst mc).canonicalForm R = (o', .error (dupOf (nStr seq) (j + 1) other))) := by
   have hpos := nStr_pos seq hd.nonempty
   let o0 : LObj := mk1 fresh nm seq sst mc
-  have hinv : Inv (nStr seq) mc o0 := ⟨⟨_, rfl, by simp [nStr]⟩, hpos, rfl, hd⟩
+  have hinv : Inv (nStr seq) mc o0 :=
+    ⟨fun l hl => (by cases hl; simp [nStr]), fun l hl => (by cases hl; rfl), rfl, hpos, rfl, hd⟩
   obtain ⟨vs, hvs, hlen, ha, hb⟩ := canonLoop_spec R (nStr seq) mc (nStr seq) o0 [] [] hinv dictFirst_nil
     (fun _ h => by cases h)
   change legacyVariants (nStr seq) seq sst = .ok vs at hvs
@@ -129,14 +140,13 @@ theorem canonicalForm_fresh (R : LReg) (fresh : Nat) (nm : String) (seq : List S
       rw [h2.keys]
       exact CplxFullL.head_sortBy _ c (CplxFullL.minKey_eraseDups vs c hc)
     have hlook : vars.lookup c = some (vs.idxOf c + 1) := h2.get c m1
-    have hinv2 : Inv (nStr seq) mc (withCanon o1 c) := ⟨h3.lens, h3.pos, h3.mc, h3.descr⟩
     refine ⟨c, if vs.idxOf c + 1 ≥ nStr seq then vs.idxOf c + 1 - nStr seq else nStr seq - (vs.idxOf c + 1), ?_, ?_⟩
     · unfold legacyCanon
       have hn : (makeStrandTableList "+" seq).length = nStr seq := rfl
       simp only [hn, hvs, hc, firstIdx1]
     · rw [hcf _ h1]
-      simp only [hhead, hlook, size_inv _ _ _ hinv2]
-      rw [ho1]
+      simp only [hhead, hlook]
+      rw [ho1, size_turned]
       have hrot : ((((vs.idxOf c + 1 : Nat) : Int) - (nStr seq : Int)).natAbs) =
           (if vs.idxOf c + 1 ≥ nStr seq then vs.idxOf c + 1 - nStr seq else nStr seq - (vs.idxOf c + 1)) := by
         split <;> omega
